@@ -277,6 +277,19 @@ def c06_job(chk, rng, i):
             head, trail = [(fixed(), fixed()), (fixed(), var), (var, fixed())][shape]
             case["rules"].insert(rng.below(len(case["rules"]) + 1), {
                 "scs": None, "bol": False, "pat": head, "trail": trail, "act": [], "_fixed": True})
+    nullable = (i % 5 == 1)
+    if nullable:
+        # a trail that can match the empty string (r/s* , r/s?): the head then ends where the
+        # whole match ends whenever nothing of the trail follows
+        hs, ts = rng.sample([b"ab", b"cd", b"01", b"xy"], 2)
+        head = ("plus", ("ccl", False, [("c", c) for c in hs]))
+        if rng.chance(30):
+            head = ("cat", [("chr", hs[0]), ("chr", hs[1])])
+        tn = ("ccl", False, [("c", c) for c in ts])
+        trail = rng.choice([("star", tn), ("opt", ("chr", ts[0])),
+                            ("cat", [("opt", ("chr", ts[0])), ("star", ("chr", ts[1]))])])
+        case["rules"].insert(rng.below(len(case["rules"]) + 1), {
+            "scs": None, "bol": False, "pat": head, "trail": trail, "act": [], "_null": (hs, ts)})
     danger = (i % 10 == 3)
     if danger:
         # the shape the manual calls dangerous (the head can end with what the trail starts
@@ -305,6 +318,15 @@ def c06_job(chk, rng, i):
         for k in range(3):
             inputs.append({"sources": [bytes([a_]) + bytes([b_]) * rng.rint(1, 3) + bytes([c_]) * rng.rint(1, 2)
                                        + b" " + g.make_input(case, ctx, maxlen=20)], "sched": [0]})
+    for r in case["rules"]:
+        if r.get("_null"):
+            hs, ts = r["_null"]
+            for k in range(3):
+                w = b""
+                for _ in range(rng.rint(3, 6)):
+                    w += bytes(rng.choice(hs) for _ in range(rng.rint(1, 3)))
+                    w += rng.choice([b" ", b"", bytes([ts[0]]), bytes(rng.choice(ts) for _ in range(2)), b"\n"])
+                inputs.append({"sources": [w + g.make_input(case, ctx, maxlen=20)], "sched": rng.choice([[0], [1]])})
     if i % 4 == 2:
         for r in case["rules"]:
             if r.get("_fixed"):
@@ -314,6 +336,7 @@ def c06_job(chk, rng, i):
                     inputs.append({"sources": [s], "sched": rng.choice([[0], [1]])})
     for r in case["rules"]:
         r.pop("_fixed", None)
+        r.pop("_null", None)
     tb = rotate(i // 3, ["", "-Cem", "-Ce", "-C", "-Cm", "-Cfe", "-CFe", "-Ca"])
     fl = flavour4(i, tb)
     cfg = {"flavour": fl, "flexargs": lib.tables_args(tb, 8)}
@@ -330,6 +353,8 @@ def c06_job(chk, rng, i):
             tf = pat.fixed_length(r["trail"], ctx) is not None
             classes.add("trail:%s_head_%s_trail" % ("fixed" if hf else "var",
                                                     "fixed" if tf else "var"))
+    if nullable:
+        classes.add("trail:nullable")
     return {"case": case, "configs": [cfg], "inputs": inputs, "skip_if": dangerous,
             "expect_build": expect_build, "features": sorted(classes)}
 
